@@ -96,8 +96,14 @@ def hull : List Range → Option Range
     | none => some r
     | some h => some ⟨min r.s h.s, max r.e h.e⟩
 
-/-- `get_filtered`: skip (none), report as certainly matching (some true), or hand to full evaluation -/
+/-- `get_filtered` (repaired, fix F27): skip (none), report as certainly matching (some true), or hand to full
+    evaluation; an enclosing range that only touches the requested range is always handed to full evaluation -/
 def prefilter (simple : Bool) (fs fe : Int) (h : Range) : Option Bool :=
+  if h.s > fe || h.e < fs then none
+  else some (simple && !(h.s == fe || h.e == fs) && (fs ≤ h.s || h.e ≤ fe))
+
+/-- `get_filtered` before fix F27: an enclosing range touching the requested range was skipped -/
+def prefilterStrict (simple : Bool) (fs fe : Int) (h : Range) : Option Bool :=
   if h.s ≥ fe || h.e ≤ fs then none else some (simple && (fs ≤ h.s || h.e ≤ fe))
 
 /-- the report: shortcut on (when the storage claims a full match the filter is not evaluated) vs off -/
@@ -108,6 +114,21 @@ def reportWithShortcut (simple : Bool) (fs fe : Int) (rs : List Range) : Bool :=
     | none => false
     | some true => true
     | some false => rs.any (overlaps fs fe)
+
+/-- the report for a series without end (`infinity_fn` of `find_time_range`): the enclosing range kept in the cache
+    starts at the first occurrence's *date* `occ0` — not at the start of the first visited range, which for a to-do can
+    lie one second earlier — and ends at the largest time stamp -/
+def reportUnbounded (simple : Bool) (tmax : Int) (fs fe : Int) (occ0 : Int) (rs : List Range) : Bool :=
+  match prefilter simple fs fe ⟨occ0, tmax⟩ with
+  | none => false
+  | some true => true
+  | some false => rs.any (overlaps fs fe)
+
+def reportUnboundedStrict (simple : Bool) (tmax : Int) (fs fe : Int) (occ0 : Int) (rs : List Range) : Bool :=
+  match prefilterStrict simple fs fe ⟨occ0, tmax⟩ with
+  | none => false
+  | some true => true
+  | some false => rs.any (overlaps fs fe)
 
 /-- occurrence starts of FREQ=DAILY|WEEKLY;INTERVAL=i with `n` occurrences: s, s+p, …, s+(n-1)p -/
 def occurrences (s : Int) (period : Int) : Nat → List Int
